@@ -121,6 +121,10 @@ class HLock:
         if self.holder != self.env.cur:
             self.env.protocol.append(["release-by-non-holder", self.holder, self.env.cur])
         self.holder = None
+        # a hand-off lock: after releasing it yields to the loop so that a waiter can run at once.  Whatever the tee
+        # does after `__aexit__` has released the lock is no longer protected by it.
+        for j in range(getattr(self.env, "handoff", 0)):
+            await Susp(["unlock", j])
 
 
 class AObjSource:
@@ -204,6 +208,7 @@ class Run:
         self.case = case
         n = case["n"]
         self.env = env = Env(case["len"], case["susp"])
+        env.handoff = case.get("handoff", 0)
         kind = case["kind"]
         if kind == "agen":
             self.src = agen_source(env)
@@ -447,6 +452,8 @@ def decode_steps(obs):
 
 
 def model_request(case):
+    if case.get("handoff"):
+        return None     # the machine's lock releases without suspending; hand-off locks are judged by the oracles alone
     kind = case["kind"]
     return {"m": "tee", "n": case["n"], "len": case["len"], "susp": case["susp"], "lock": case["lock"],
             "closeable": kind != "aobj_nc", "dies": kind in ("agen", "iter"), "ops": all_ops(case)}
@@ -773,8 +780,14 @@ def cases(tier, rng):
                     yield _base(n, ln, [], lock, kind, [["s", 1], ["c", 0]], "early-close")
                     yield _base(n, ln, [], lock, kind, [["ca"]], "early-close")
     nr = 6000 if quick else 60000
-    for _ in range(nr):
-        yield random_case(rng)
+    for k in range(nr):
+        case = random_case(rng)
+        yield case
+        if k % 6 == 0 and case["lock"]:
+            # the same schedule with a hand-off lock (its __aexit__ suspends after releasing): oracle-only
+            h = 1 + k % 2
+            yield dict(case, handoff=h, origin="handoff", ops=[op for op in case["ops"] if op[0] != "x"],
+                       drain=(case["len"] + 2) * (max(case["susp"] or [0]) + 3 + h) + 2)
 
 
 def _full_drain(case):
